@@ -144,6 +144,23 @@ def corpus():
          ("ad", [("p5", A("at", "a"))], []),
          ("rule", A("at", "Y"), [P(A("go", "X", "Y"))]),
          ("query", A("at", "b")), ("query", A("stay", "b", "a"))])
+    # round 2: minimal shapes of the defects repaired by the fix: commits b9246d5 / f587857, kept
+    # in the corpus so that every seed covers them
+    add("cycle-first-proof-false",
+        [("ad", [("p1", A("f"))], []),
+         ("rule", A("r"), [P(A("f")), N(A("f"))]), ("rule", A("r"), [P(A("r")), P(A("f"))]),
+         ("rule", A("r"), [P(A("f"))]), ("query", A("r"))])
+    add("repeated-false-proof-nonground",
+        [("fact", A("dom", "a")), ("fact", A("dom", "b")),
+         ("fact", A("w", "a", "p1")), ("fact", A("w", "b", "p2")),
+         ("ad", [("P", A("u", "X"))], [P(A("w", "X", "P"))]),
+         ("rule", A("r"), [P(A("dom", "X")), P(A("u", "X")), N(A("u", "X"))]),
+         ("rule", A("s"), [P(A("dom", "X")), P(A("u", "X"))]),
+         ("query", A("r")), ("query", A("s"))])
+    add("deterministic-query-next-to-fact",
+        [("fact", A("dom", "a")), ("ad", [("p1", A("f"))], []),
+         ("rule", A("r1", "X"), [P(A("dom", "X"))]), ("rule", A("r2"), [P(A("f"))]),
+         ("query", A("r1", "X")), ("query", A("r2"))])
     return C
 
 
